@@ -13,27 +13,29 @@
   extensions, each parameterised by keyword case masks, string forms (quoted / literal / atom
   where allowed / NIL), zero padding of numerals and the tolerated deviations.
 
-  What is proved (`fidelity_partial`): the statement for every response the relation covers:
-      * FETCH responses whose attributes are BODYSTRUCTURE / BODY (text, message/rfc822, basic and
-        multipart parts, body fields, parameters, encoding, disposition, language, location, extension
-        data, nested to the depth budget), ENVELOPE (all ten fields; address lists of any length),
-        INTERNALDATE, FLAGS, MODSEQ, RFC822, RFC822.HEADER, RFC822.SIZE, RFC822.TEXT, UID,
-        X-GM-LABELS, X-GM-MSGID, in any number and order;
-      * mailbox data: EXISTS, RECENT, FLAGS, SEARCH and SORT (with the tolerated trailing space),
-        LIST and LSUB (name attributes classified by the complete flag, NIL / quoted delimiter, mailbox
-        in every astring form with INBOX folded), STATUS (all six items, empty list allowed);
-      * EXPUNGE; CAPABILITY (classification by the complete atom, IMAP4rev1 required);
-      * status responses, untagged (`* OK ...`), tagged completions and continuation requests
-        (`+ text`, `+text`), with the response codes ALERT, PARSE, READ-ONLY, READ-WRITE, TRYCREATE,
-        UIDNOTSTICKY, UIDVALIDITY, UIDNEXT, UNSEEN, PERMANENTFLAGS, HIGHESTMODSEQ, METADATA
-        LONGENTRIES / MAXSIZE / TOOMANY / NOPRIVATE, and the forms `[code] text`, `[code]`, `text`,
-        nothing;
-      all untagged ones wrapped as `* payload *SP CRLF` where trailing spaces are tolerated.
-  What is missing from the full statement: the remaining response kinds (ACL / LISTRIGHTS / MYRIGHTS,
-  QUOTA / QUOTAROOT, ID, METADATA, ENABLED, VANISHED, Gmail mailbox data), the response codes
-  BADCHARSET, CAPABILITY-inside-a-status-line, APPENDUID, COPYUID, and the attribute BODY[section].
-  For those the property is decided by the correspondence run only (type-directed values x
-  independent printer x both implementations), as recorded in the evidence file.
+  What is proved (`fidelity`): the statement for every response the relation covers, which is every
+  production of the response grammar the parser implements:
+      * FETCH with every attribute: BODY[section]<origin>, BODYSTRUCTURE / BODY (text, message/rfc822,
+        basic and multipart parts, body fields, parameters, encoding, disposition, language, location,
+        extension data, nested to the depth budget), ENVELOPE (ten fields; address lists of any length),
+        INTERNALDATE, FLAGS, MODSEQ, RFC822, RFC822.HEADER, RFC822.SIZE, RFC822.TEXT, UID, X-GM-LABELS,
+        X-GM-MSGID, in any number and order;
+      * mailbox data: EXISTS, RECENT, FLAGS, SEARCH, SORT, LIST, LSUB, STATUS, X-GM-LABELS, X-GM-MSGID,
+        METADATA (solicited and unsolicited);
+      * EXPUNGE, CAPABILITY, ENABLED, VANISHED, QUOTA, QUOTAROOT, ID, ACL, LISTRIGHTS, MYRIGHTS;
+      * untagged status responses, tagged completions and continuation requests with all 19 response
+        codes and the forms `[code] text`, `[code]`, `text`, nothing.
+  Residual restrictions, all visible as hypotheses of the relation's constructors (they delimit
+  "RFC-conformant encoding of a value of the crate's types", they are not gaps of the proof):
+      * quoted strings hold no `"` or `\` (the property sends those in literal form); literals hold no
+        NUL and are shorter than 2^32 (the code's own limits, C08 / C13);
+      * body structures nest at most MAX_NESTING = 32 deep (fix F3);
+      * a basic body part's media type, when quoted, is not TEXT or MESSAGE/RFC822 (those have forms of
+        their own); a content transfer encoding given as `other` is not one of the five keywords;
+      * human-readable text without a code does not begin with `[`;
+      * values the crate's types cannot hold are identified as the types do: HEADER.FIELDS names and
+        ID pairs with NIL value are dropped, LIST attributes / capabilities / quota resources are
+        classified by their complete atom, INBOX is folded, a range high:low is the set low:high.
 -/
 import ImapVerif.Proofs.RTResp
 
@@ -42,12 +44,12 @@ open Bytes Parser Grammar RT
 namespace C03
 
 /-- fidelity for every covered response: the value and the consumed length are exactly those sent -/
-theorem fidelity_partial (r : Response) (e : Bytes) (h : EncResponse r e) (rest : Bytes) :
+theorem fidelity (r : Response) (e : Bytes) (h : EncResponse r e) (rest : Bytes) :
     parseResponse (e ++ rest) = .ok r rest :=
   parseResponse_enc r e h rest
 
 /-- ... in particular a complete encoding standing alone is consumed entirely -/
-theorem fidelity_alone_partial (r : Response) (e : Bytes) (h : EncResponse r e) :
+theorem fidelity_alone (r : Response) (e : Bytes) (h : EncResponse r e) :
     parseResponse e = .ok r [] := by
   have := parseResponse_enc r e h []
   simpa using this
